@@ -45,6 +45,10 @@ VALUES = [
     # tuples whose elements share a class but differ in their parameters (first conforms, later does not)
     ("([1], ['a'])", "tuple"), ("([1], [2])", "tuple"), ("((1,), ('a',))", "tuple"), ("({'k': 1}, {'k': 'a'})", "tuple"),
     ("(A(), A(), C())", "tuple"),
+    # constants that are equal but differ in (nested) item types: set displays of >=3 constants become frozenset
+    # constants, nested tuples stay tuple constants; the later one must not be taken for the earlier one
+    ("{1, 2, 3}", "homo"), ("{1.5, 2.5, 3.5}", "homo"), ("{1.0, 2.0, 3.0}", "homo"), ("{True, False, 2}", "homo"),
+    ("((1, 0),)", "tuple"), ("((1.0, 0.0),)", "tuple"), ("((True, False),)", "tuple"),
 ]
 
 SCALARS = ["int", "float", "complex", "str", "bytes", "bool", "None", "object", "Any", "A", "B", "C"]
